@@ -396,6 +396,7 @@ fn cmd_minimise(args: &[String]) {
         let (res, _, _) = run_plan(cand, &sandbox, true, false, &|rec| judge(&check_prop, cand, &reference_rec, rec));
         res.violations.iter().any(|x| x.property == property && x.class == class).then_some(res.rec)
     };
+    let hit_detail = v["detail"].as_str().unwrap_or("").to_string();
     let Some(mut best_rec) = still_fails(&original) else {
         println!("NOT-REPRODUCED before minimising");
         std::process::exit(3);
@@ -453,6 +454,38 @@ fn cmd_minimise(args: &[String]) {
         p.strategy = plan::Strategy::seq();
         p.overrides.clear();
     });
+    // a schedule that can be said in a few words beats a list of deviations: try singling out
+    // each job the violation names, on an otherwise sequential schedule
+    if best.strategy.name != "seq" && !(best.strategy.victim.is_some() && best.strategy.base.as_deref() == Some("seq")) {
+        let mut named: Vec<String> = reference_rec
+            .jobs
+            .iter()
+            .filter(|j| hit_detail.contains(j.as_str()))
+            .cloned()
+            .collect();
+        named.sort_by_key(|j| std::cmp::Reverse(j.len()));
+        named.truncate(4);
+        'outer: for job in &named {
+            for kind in ["delay-done-b", "delay-start", "delay-done-a", "rush"] {
+                let mut cand = best.clone();
+                cand.overrides.clear();
+                cand.strategy = plan::Strategy {
+                    name: kind.into(),
+                    seed: best.strategy.seed,
+                    victim: Some(job.clone()),
+                    depth: 0,
+                    horizon: 0,
+                    base: Some("seq".into()),
+                    also: vec![],
+                };
+                if let Some(rec) = still_fails(&cand) {
+                    best = cand;
+                    best_rec = rec;
+                    break 'outer;
+                }
+            }
+        }
+    }
     let victim_on_seq = best.strategy.victim.is_some() && best.strategy.base.as_deref() == Some("seq");
     if victim_on_seq {
         notes.push(format!("schedule: sequential, except that {} is applied to {}", best.strategy.name, best.strategy.victim.clone().unwrap_or_default()));
